@@ -4,6 +4,7 @@ import re
 
 from ..core import AnalysisError, norm
 from .common import (effects, exceptions, paths_of, check_writers, arg_by_name, named_call_sites, ctor_sites)
+from ..sim import check_reach
 
 TOTAL_QUOTERS = {'repr', 'json.dumps', 'shlex.quote'}
 
@@ -76,6 +77,36 @@ def check_split(ctx, rule):
                   '_split_command returns %s' % t[:200])
     ctx.check(shapes >= {'none', 'exact', 'cluster'}, rule, 'split:all-shapes', f_split.loc(), 'the three split shapes (no marker, exact marker, marker at the end of a flag cluster) exist',
               'split shapes present: %s' % sorted(shapes))
+    # the cluster form (-Cr): taken exactly when alias and word are single-dash options, the word is longer than two
+    # characters, the marker letter is its last letter and occurs nowhere before
+    for p in sp:
+        if p.outcome[0] == 'return' and '[:-1]]' in norm(p.outcome[1]):
+            facts = {re.sub(r'<elem0 of range\(len\(args\)\)>|<elem0 of enumerate\(args\)>\[0\]', 'I', a.text).replace('<elem0 of enumerate(args)>[1]', 'args[I]'): v for a, v in p.decisions}
+            need = {'_starts_with_single_dash(<elem0 of <elem0 of commands>>)': True, '2 < len(args[I])': True, '_starts_with_single_dash(args[I])': True,
+                    '_strip_dashes(<elem0 of <elem0 of commands>>) in args[I][:-1]': False, 'args[I].endswith(_strip_dashes(<elem0 of <elem0 of commands>>))': True}
+            ctx.check(all(facts.get(k) == v for k, v in need.items()), rule, 'split:cluster-conditions', f_split.loc(),
+                      'the cluster form is recognised under exactly the five conditions (single-dash alias and word, length > 2, marker letter last and not earlier)',
+                      'cluster form is taken under %s' % {k: facts.get(k) for k in need})
+    f_ssd = repo.func('arguments._starts_with_single_dash')
+
+    def m_ssd(a):
+        return {"s.startswith('-')": ('dash', True), '1 < len(s)': ('long', True), "'-' == s[1]": ('second', True), "s[1] == '-'": ('second', True)}.get(a.text)
+    probs = check_reach(paths_of(repo, f_ssd, bool_returns=True), lambda e: e.kind == 'return' and isinstance(e.value, ast.Constant) and e.value.value is True, m_ssd,
+                        lambda F: F['dash'] and F['long'] and not F['second'], universe=['dash', 'long', 'second'])
+    ctx.check(not probs, rule, 'split:single-dash-test', f_ssd.loc(), 'a single-dash option is: starts with -, longer than one character, second character is not -',
+              '_starts_with_single_dash returns %s in scenario %s' % ((probs[0][2], probs[0][1]) if probs else ('', '')))
+    f_sd = repo.func('arguments._strip_dashes')
+    nsd = 0
+    for p in paths_of(repo, f_sd, while_unroll=2):
+        if p.outcome[0] != 'return':
+            continue
+        nsd += 1
+        t = norm(p.outcome[1])
+        k = t.count('[1:]')
+        vals = [v for a, v in p.decisions if a.text.endswith(".startswith('-')")]
+        ctx.check(t == 's' + '[1:]' * k and vals == [True] * k + [False], rule, 'split:strip-dashes:%d' % k, f_sd.loc(), '_strip_dashes removes exactly the leading dashes',
+                  '_strip_dashes returns %s after decisions %s' % (t, vals))
+    ctx.floor(rule, nsd, 2, 'returning paths of _strip_dashes')
     tops = [n for n in f_split.node.body if isinstance(n, ast.For)]
     ctx.check(len(tops) == 1 and norm(tops[0].iter) in ('range(len(args))', 'enumerate(args)') and any(isinstance(x, ast.For) for x in ast.walk(tops[0]) if x is not tops[0]), rule, 'split:position-loop-outermost', f_split.loc(),
               'the loop over positions is the outermost one, so the first marker position wins', 'outermost loop is %s' % [norm(t_.iter) for t_ in tops])
